@@ -337,3 +337,340 @@ def h_proof_trunc(ks, default, tracked, k, v, m):
 
 def b_proof_trunc(src, ks, dshape, vshape, m):
     return [ks, _val(src, "default", dshape), src.bv("t", ks), src.bv("k", ks), _val(src, "v", vshape), m]
+
+
+# ---------------------------------------------------------------------------------------- C12 / C13
+from trie.binary import BinaryTrie  # noqa: E402
+from trie.exceptions import InvalidKeyError, NodeOverrideError  # noqa: E402
+
+
+def _starts(full, prefix):
+    return len(full) >= len(prefix) and full[:len(prefix)] == prefix
+
+
+def _related(a, b):
+    """one key is a proper prefix of the other"""
+    if len(a) == len(b):
+        return False
+    if len(a) < len(b):
+        return b[:len(a)] == a
+    return a[:len(b)] == b
+
+
+def h_bin_hist(ops, kinds, q):
+    """ops: ((key, value), ...), kinds[i] in {0: set, 1: delete, 2: delete_subtrie}; q: lookup key.
+    Map model with the NodeOverrideError rule; a raising call leaves root and contents unchanged; earlier roots stay readable."""
+    db = {}
+    t = BinaryTrie(db)
+    n = len(ops)
+    present = [False] * n           # slot j: key ops[j][0] currently stored with value ops[j][1]
+    conds = []
+    roots = []
+    for i in range(n):
+        k, v = ops[i]
+        kind = kinds[i]
+        before_root = t.root_hash
+        before_q = t.get(q)
+        raised = False
+        try:
+            if kind == 0:
+                t.set(k, v)
+            elif kind == 1:
+                t.delete(k)
+            else:
+                t.delete_subtrie(k)
+        except NodeOverrideError:
+            raised = True
+        stored_k = any([present[j] and ops[j][0] == k for j in range(i)])
+        conflict = any([present[j] and _related(ops[j][0], k) for j in range(i)])
+        if raised:
+            conds.append(t.root_hash == before_root)
+            conds.append(t.get(q) == before_q)
+            if kind == 0:
+                conds.append(conflict)                 # a set is refused only for a prefix conflict
+            elif kind == 1:
+                conds.append(not stored_k)              # deleting a stored key is never refused
+            else:
+                conds.append(not any([present[j] and _starts(ops[j][0], k) for j in range(i)]))
+        else:
+            if kind == 0:
+                conds.append(not conflict)
+                for j in range(i):
+                    present[j] = present[j] and not (ops[j][0] == k)
+                present[i] = True
+            elif kind == 1:
+                for j in range(i):
+                    present[j] = present[j] and not (ops[j][0] == k)
+            else:
+                for j in range(i):
+                    present[j] = present[j] and not _starts(ops[j][0], k)
+        roots.append(t.root_hash)
+    got = t.get(q)
+    if got is None:
+        conds.append(not any([present[j] and ops[j][0] == q for j in range(n)]))
+        conds.append(not t.exists(q))
+    else:
+        conds.append(any([present[j] and ops[j][0] == q and ops[j][1] == got for j in range(n)]))
+        conds.append(t.exists(q))
+    conds.append((t.root_hash == BLANK_HASH) == (not any(present)))
+    return all(conds)
+
+
+def _key(src, name, n):
+    return src.bv(name, n)
+
+
+def b_bin_hist(src, klens, kinds, vlen, qlen, qfrom=None, kfix=None):
+    """kfix[i] (optional): concrete suffix bytes appended to the symbolic part of key i (fewer trie shapes per obligation)"""
+    def key(i, kl):
+        fx = bytes(kfix[i]) if kfix and kfix[i] else b""
+        return _key(src, f"k{i}", kl - len(fx)) + fx if kl > len(fx) else fx
+    ops = tuple((key(i, kl), src.atom(f"v{i}", vlen) if kinds[i] == 0 else b"") for i, kl in enumerate(klens))
+    q = _key(src, "q", qlen) if qfrom is None else ops[qfrom][0]        # a free query key, or the key of operation `qfrom`
+    return [ops, tuple(kinds), q]
+
+
+def h_bin_order(k1, v1, k2, v2):
+    """two keys, both insertion orders, and insert+delete: same root as the direct construction"""
+    if k1 == k2 or _related(k1, k2):
+        return True
+    a = BinaryTrie({})
+    a.set(k1, v1)
+    r1 = a.root_hash
+    a.set(k2, v2)
+    b = BinaryTrie({})
+    b.set(k2, v2)
+    b.set(k1, v1)
+    conds = [a.root_hash == b.root_hash]
+    a.delete(k2)
+    conds.append(a.root_hash == r1)
+    b.delete(k2)
+    conds.append(b.root_hash == r1)
+    a.delete(k1)
+    conds.append(a.root_hash == BLANK_HASH)
+    old = BinaryTrie(b.db, r1)
+    conds.append(old.get(k1) == v1)
+    return all(conds)
+
+
+def b_bin_order(src, l1, l2):
+    return [_key(src, "k1", l1), src.atom("v1", 3), _key(src, "k2", l2), src.atom("v2", 3)]
+
+
+from trie.branches import check_if_branch_exist, get_branch, get_trie_nodes, get_witness_for_key_prefix, if_branch_valid  # noqa: E402
+
+
+def _reachable_nodes(db, root):
+    """own walker over the binary node encodings (type byte, 32-byte child hashes), independent of trie.utils.nodes"""
+    out = []
+    if root == BLANK_HASH:
+        return out
+    stack = [root]
+    while stack:
+        h = stack.pop()
+        node = db[h]
+        out.append(node)
+        t = node[0]
+        if t == 1:
+            stack.append(node[33:65])
+            stack.append(node[1:33])
+        elif t == 0:
+            stack.append(node[-32:])
+    return out
+
+
+def _same_multiset(xs, ys):
+    if len(xs) != len(ys):
+        return False
+    return all([any([x == y for y in ys]) for x in xs]) and all([any([x == y for x in xs]) for y in ys])
+
+
+def _build(keys, vals):
+    """None when the keys collide or are prefix-related (such sets cannot all be stored), else (db, trie)"""
+    n = len(keys)
+    for i in range(n):
+        for j in range(i):
+            if keys[i] == keys[j] or _related(keys[i], keys[j]):
+                return None
+    db = {}
+    t = BinaryTrie(db)
+    for k, v in zip(keys, vals):
+        t.set(k, v)
+    return (db, t)
+
+
+def h_branch(keys, vals, q):
+    """get_branch(q) either refuses q (absent and prefix-related to a stored key) or yields nodes of the trie from which
+    if_branch_valid confirms the trie's answer; the same branch never validates a wrong answer, nor does a truncated one"""
+    built = _build(keys, vals)
+    if built is None:
+        return True
+    db, t = built
+    root = t.root_hash
+    conds = []
+    answer = t.get(q)
+    stored_q = any([k == q for k in keys])
+    conds.append((answer is not None) == stored_q)
+    try:
+        branch = get_branch(db, root, q)
+    except InvalidKeyError:
+        return all(conds + [not stored_q, any([_related(k, q) for k in keys])])
+    conds.append(if_branch_valid(branch, root, q, answer))
+    reach = _reachable_nodes(db, root)
+    for node in branch:
+        conds.append(any([node == x for x in reach]))
+    try:
+        ok_wrong = if_branch_valid(branch, root, q, b"\x99wrong")
+    except (AssertionError, KeyError, InvalidNode):
+        ok_wrong = False
+    conds.append(not ok_wrong)
+    if len(branch) >= 2 and answer is not None:
+        try:
+            ok_trunc = if_branch_valid(branch[:-1], root, q, answer)
+        except (AssertionError, KeyError, InvalidNode):
+            ok_trunc = False
+        conds.append(not ok_trunc)
+    return all(conds)
+
+
+def b_branch(src, klens, qlen):
+    keys = tuple(_key(src, f"k{i}", kl) for i, kl in enumerate(klens))
+    vals = tuple(src.atom(f"v{i}", 3) for i in range(len(klens)))
+    return [keys, vals, _key(src, "q", qlen)]
+
+
+def h_branch_other(keys, vals, q, q2):
+    """a branch produced for another key q2 never validates an answer for q that the trie does not give"""
+    built = _build(keys, vals)
+    if built is None or q == q2:
+        return True
+    db, t = built
+    root = t.root_hash
+    try:
+        other = get_branch(db, root, q2)
+    except InvalidKeyError:
+        return True
+    if len(other) == 0:
+        return True
+    answer = t.get(q)
+    for claimed in (vals[0], None):
+        if claimed is None and answer is None:
+            continue
+        try:
+            ok = if_branch_valid(other, root, q, claimed)
+        except (AssertionError, KeyError, InvalidNode):
+            ok = False
+        if ok and not (answer is not None and claimed is not None and answer == claimed):
+            return False
+    return True
+
+
+def b_branch_other(src, klens, qlen):
+    keys = tuple(_key(src, f"k{i}", kl) for i, kl in enumerate(klens))
+    vals = tuple(src.atom(f"v{i}", 3) for i in range(len(klens)))
+    return [keys, vals, _key(src, "q", qlen), _key(src, "q2", qlen)]
+
+
+def h_branch_foreign(keys, vals, q, v2, drop_first):
+    """a branch taken from ANOTHER trie (same keys with another value, or with the first key missing), offered against the
+    real root, never validates an answer the real trie does not give (every node is well formed, only not the real one)"""
+    built = _build(keys, vals)
+    if built is None:
+        return True
+    db, t = built
+    root = t.root_hash
+    answer = t.get(q)
+    keys2 = keys[1:] if drop_first else keys
+    other = _build(keys2, tuple(v2 for _ in keys2))
+    if other is None:
+        return True
+    db2, t2 = other
+    try:
+        forged = get_branch(db2, t2.root_hash, q)
+    except InvalidKeyError:
+        return True
+    if len(forged) == 0:
+        return True
+    claim = t2.get(q)
+    same = (claim is None and answer is None) or (claim is not None and answer is not None and claim == answer)
+    try:
+        ok = if_branch_valid(forged, root, q, claim)
+    except (AssertionError, KeyError, InvalidNode):
+        ok = False
+    return same or not ok
+
+
+def b_branch_foreign(src, klens, qlen, drop_first):
+    keys = tuple(_key(src, f"k{i}", kl) for i, kl in enumerate(klens))
+    vals = tuple(src.atom(f"v{i}", 3) for i in range(len(klens)))
+    return [keys, vals, _key(src, "q", qlen), src.atom("w", 3), drop_first]
+
+
+def h_exist(keys, vals, p):
+    built = _build(keys, vals)
+    if built is None:
+        return True
+    db, t = built
+    return check_if_branch_exist(db, t.root_hash, p) == any([_starts(k, p) for k in keys])
+
+
+def b_exist(src, klens, plen):
+    keys = tuple(_key(src, f"k{i}", kl) for i, kl in enumerate(klens))
+    vals = tuple(src.atom(f"v{i}", 3) for i in range(len(klens)))
+    return [keys, vals, _key(src, "p", plen) if plen else b""]
+
+
+def h_nodes(keys, vals):
+    built = _build(keys, vals)
+    if built is None:
+        return True
+    db, t = built
+    return _same_multiset(list(get_trie_nodes(db, t.root_hash)), _reachable_nodes(db, t.root_hash))
+
+
+def b_nodes(src, klens):
+    keys = tuple(_key(src, f"k{i}", kl) for i, kl in enumerate(klens))
+    vals = tuple(src.atom(f"v{i}", 3) for i in range(len(klens)))
+    return [keys, vals]
+
+
+def h_witness(keys, vals, p, suffix):
+    """get_witness_for_key_prefix(p): only nodes of the trie, sufficient to answer get(k) for every k starting with p"""
+    n = len(keys)
+    for i in range(n):
+        for j in range(i):
+            if keys[i] == keys[j] or _related(keys[i], keys[j]):
+                return True
+    db = {}
+    t = BinaryTrie(db)
+    for k, v in zip(keys, vals):
+        t.set(k, v)
+    root = t.root_hash
+    try:
+        wit = get_witness_for_key_prefix(db, root, p)
+    except InvalidKeyError:
+        # refused as running past a leaf: p properly extends a stored key
+        return any([_related(k, p) and len(k) < len(p) for k in keys])
+    reach = _reachable_nodes(db, root)
+    conds = [any([w == x for x in reach]) for w in wit]
+    wdb = {}
+    for w in wit:
+        wdb[keccak_of(w)] = w
+    k = p + suffix
+    try:
+        got = BinaryTrie(wdb, root).get(k)
+        conds.append(got == t.get(k))
+    except KeyError:
+        conds.append(False)
+    return all(conds)
+
+
+def keccak_of(b):
+    from eth_hash.auto import keccak
+    return keccak(b)
+
+
+def b_witness(src, klens, plen, slen):
+    keys = tuple(_key(src, f"k{i}", kl) for i, kl in enumerate(klens))
+    vals = tuple(src.atom(f"v{i}", 3) for i in range(len(klens)))
+    return [keys, vals, _key(src, "p", plen) if plen else b"", _key(src, "s", slen) if slen else b""]
